@@ -104,6 +104,10 @@ def widesrc_cases(rng, n):
         slo, shi = S.fmt_bounds(True, snw)
         code = rng.choice([rng.getrandbits(rng.randint(40, 62)), -rng.getrandbits(rng.randint(40, 62)), (1 << 61) + 1, -(1 << 61) - 3, rng.getrandbits(62) | 1])
         s, nw, nf = S.random_format(rng)
+        d = snf - nf
+        if 1 <= d <= 40 and rng.random() < 0.35:      # an exact tie (or one raw unit beside it) at the dropped bits
+            code = ((rng.getrandbits(61 - d) | (1 << (60 - d))) << d | (1 << (d - 1))) + rng.choice([0, 0, 1, -1])
+            code *= rng.choice([1, -1])
         cases.append({'src': [True, snw, snf], 'code': code, 's': s, 'nw': nw, 'nf': nf, 'r': rng.choice(RMODES), 'route': rng.choice(['ctor', 'call', 'set_val', 'setitem', 'like_kw'])})
     return cases
 
@@ -240,9 +244,11 @@ def run_outreg(cases, res):
     outs = model_call(reqs)
     for i, (c, got, st3) in enumerate(pend):
         o = outs[2 * i]; mo = S.read_model_store(outs[2 * i + 1])
-        rd = Reader(o); want = rd.lst(rd.z)[0]
+        rd = Reader(o); want = rd.lst(rd.z)[0]; wflags = (rd.b(), rd.b())
         res.count('G:narrow-operands-into-wide-register', key=repr(c), nontrivial=True)
         res.sample(c)
+        if got == (want, True, tuple(c['out'])) and st3[:2] != wflags:
+            res.fail(c, 'C03: arithmetic stored through out= into a wrap register: the overflow / underflow flags are not those of the exact result (an intermediate wrapped)', expected=wflags, got=st3[:2]); continue
         if got != (want, True, tuple(c['out'])):
             res.fail(c, 'C03: arithmetic stored through out= into a wrap register of 64 bits or more is not the residue of the exact result', expected=(want, True, tuple(c['out'])), got=got); continue
         if mo['kind'] != 'ok' or mo['codes'] != [got[0]] or mo['status'][:2] != st3[:2]:
